@@ -40,7 +40,7 @@ const (
 	gasWant   = int64(60_000_000)
 	boxBase   = 300 // bytes in a fresh box: all length prefixes stay two bytes wide between 128 and 16383
 	sessPath  = "gno.land/r/verif/sess"
-	otherPath = "gno.land/r/verif/other"
+	otherPath = "gno.land/r/verif/sessx" // shares the prefix of sessPath without being a sub-path: AllowPaths must not match it
 )
 
 const sessSrc = `package sess
@@ -84,7 +84,7 @@ func Resize(cur realm, key string, n int) {
 }
 `
 
-const otherSrc = `package other
+const otherSrc = `package sessx
 
 func Pay(cur realm) {}
 `
@@ -412,7 +412,7 @@ type mism struct {
 func (w *world) newRun(idx int, beh []mbt.Step) *run {
 	p := fmt.Sprintf("c16-%s-%d-", w.tag, idx)
 	return &run{idx: idx, tag: w.tag, beh: beh, m: newKey(p + "m"), s: map[string]*key{"s1": newKey(p + "s1"), "s2": newKey(p + "s2")},
-		z: crypto.AddressFromPreimage([]byte(p + "z")), snum: map[string]uint64{}, sseq: map[string]uint64{}, size: boxBase}
+		z: crypto.AddressFromPreimage([]byte(p + "z")), snum: map[string]uint64{}, sseq: map[string]uint64{}, size: boxBase + 1}
 }
 
 func (w *world) setup(runs []*run) {
@@ -435,7 +435,9 @@ func (w *world) setup(runs []*run) {
 		r.mnum, r.mseq = u64(v, "account_number"), u64(v, "sequence")
 		c := vm.NewMsgCall(r.m.addr, nil, sessPath, "NewBox", []string{r.boxKey(), fmt.Sprint(boxBase)})
 		c.MaxDeposit = ug(1_000_000_000)
-		msgs := []std.Msg{c}
+		c2 := vm.NewMsgCall(r.m.addr, nil, sessPath, "Resize", []string{r.boxKey(), fmt.Sprint(boxBase + 1)}) // first re-save: modification stamp
+		c2.MaxDeposit = ug(1_000_000_000)
+		msgs := []std.Msg{c, c2}
 		pre, _ := r.beh[0]["pre"].(map[string]any)
 		for _, sn := range []string{"s1", "s2"} {
 			c := mbt.Step(pre[sn].(map[string]any))
@@ -468,7 +470,7 @@ func (w *world) setup(runs []*run) {
 func (w *world) calibrate() {
 	r := w.newRun(-1, nil)
 	w.beginAt(w.tickTime(0))
-	tx := appenv.SignTx([]std.Msg{send(w.faucet.Addr, r.m.addr, 100*unit)}, gasWant, 1, appenv.ChainID, w.faucet, w.fnum, w.fseq)
+	tx := appenv.SignTx([]std.Msg{send(w.faucet.Addr, r.m.addr, 100_000*unit)}, gasWant, 1, appenv.ChainID, w.faucet, w.fnum, w.fseq)
 	w.fseq++
 	w.deliverOK(tx, "calibration funding")
 	w.e.EndBlockCommit()
@@ -484,20 +486,26 @@ func (w *world) calibrate() {
 		w.e.EndBlockCommit()
 		return before - w.e.Balance(r.m.addr) - unit
 	}
-	step("NewBox", boxBase)
-	if os.Getenv("C16_PROBE") != "" {
-		cur := boxBase
-		for _, n := range []int{301, 302, 310, 320, 400, 500, 600, 700, 1000, 999, 900, 500, 300} {
-			d := step("Resize", n)
-			fmt.Fprintf(os.Stderr, "resize %d -> %d (delta %d bytes): %d ugnot\n", cur, n, n-cur, d)
-			cur = n
+	// realm time (the ModTime stamped on re-saved objects is a varint of it) must stay between 128 and
+	// 16383 while amounts are measured: push it over 128 here, cap the behaviours per application below
+	w.beginAt(w.tickTime(0))
+	for i := 0; i < 12; i++ {
+		var msgs []std.Msg
+		for j := 0; j < 5; j++ {
+			c := vm.NewMsgCall(r.m.addr, nil, sessPath, "NewBox", []string{fmt.Sprintf("warm-%s-%d-%d", w.tag, i, j), "8"})
+			c.MaxDeposit = ug(1_000_000_000)
+			msgs = append(msgs, c)
 		}
-		os.Exit(0)
+		w.deliverOK(w.masterTx(r, msgs, unit), "warm-up")
+		r.mseq++
 	}
-	if d := step("Resize", boxBase+3*bytesUnit); d != 3*unit {
+	w.e.EndBlockCommit()
+	step("NewBox", boxBase)
+	step("Resize", boxBase+1) // first re-save of an object adds its modification stamp
+	if d := step("Resize", boxBase+1+3*bytesUnit); d != 3*unit {
 		mbt.Die("calibration: growing a box by %d bytes locked %d ugnot, expected %d", 3*bytesUnit, d, 3*unit)
 	}
-	if d := step("Resize", boxBase+bytesUnit); d != -2*unit {
+	if d := step("Resize", boxBase+1+bytesUnit); d != -2*unit {
 		mbt.Die("calibration: shrinking a box by %d bytes refunded %d ugnot, expected %d", 2*bytesUnit, -d, 2*unit)
 	}
 }
@@ -611,9 +619,9 @@ func (w *world) batch(behs [][]mbt.Step, base int) (out []*mism, steps int) {
 }
 
 func firstLine(s string) string {
-	s = strings.SplitN(s, "\n", 2)[0]
-	if len(s) > 300 {
-		s = s[:300]
+	s = strings.ReplaceAll(s, "\n", " | ")
+	if len(s) > 400 {
+		s = s[:400]
 	}
 	return s
 }
@@ -692,7 +700,8 @@ func main() {
 	if size <= 0 {
 		size = 1000
 	}
-	w := newWorld("r")
+	w := newWorld("r0")
+	served := 0
 	var okc, steps, flaky int
 	seen := map[string]bool{}
 	for base := 0; base < len(behs); base += size {
@@ -700,6 +709,10 @@ func main() {
 		if end > len(behs) {
 			end = len(behs)
 		}
+		if served+(end-base) > 2500 {
+			w, served = newWorld(fmt.Sprintf("r%d", base)), 0 // keeps the realm's object counter below 16384 (see calibrate)
+		}
+		served += end - base
 		mis, n := w.batch(behs[base:end], base)
 		steps += n
 		okc += end - base - len(mis)
